@@ -74,7 +74,33 @@ type Op struct {
 	S    string
 }
 
+// Opts are Repository options that must not change any modelled behaviour.
+type Opts struct {
+	SkipGC  bool
+	Warn    bool // HandleWarning set; the registry sends Warning headers
+	RefPage int  // ReferrerListPageSize
+	TagPage int  // TagListPageSize
+	MaxMeta bool // MaxMetadataBytes = 1 MiB instead of the default
+}
+
+func (o Opts) String() string {
+	return fmt.Sprintf("g%sw%sr%dt%dm%s", bit(o.SkipGC), bit(o.Warn), o.RefPage, o.TagPage, bit(o.MaxMeta))
+}
+
+var optsRx = regexp.MustCompile(`^g([01])w([01])r([0-9]+)t([0-9]+)m([01])$`)
+
+func parseOpts(s string) Opts {
+	m := optsRx.FindStringSubmatch(s)
+	if m == nil {
+		return Opts{}
+	}
+	r, _ := strconv.Atoi(m[3])
+	t, _ := strconv.Atoi(m[4])
+	return Opts{SkipGC: m[1] == "1", Warn: m[2] == "1", RefPage: r, TagPage: t, MaxMeta: m[5] == "1"}
+}
+
 type Case struct {
+	O           Opts
 	Main, Other string
 	Prof        fr.Profile
 	Plain       bool
@@ -111,7 +137,7 @@ func (c *Case) Line() string {
 	add := func(s ...string) { w = append(w, s...) }
 	add("H", common.Hex(c.Main), common.Hex(c.Other),
 		bit(c.Prof.DigHdr)+bit(c.Prof.Range)+bit(c.Prof.CLen)+bit(c.Prof.Mount)+bit(c.Prof.Referrers),
-		bit(c.Plain), strconv.Itoa(c.Rst), strconv.Itoa(len(c.MTs)))
+		bit(c.Plain)+c.O.String(), strconv.Itoa(c.Rst), strconv.Itoa(len(c.MTs)))
 	for _, m := range c.MTs {
 		add(common.Hex(m))
 	}
@@ -190,7 +216,10 @@ func ParseCase(line string) (*Case, error) {
 		return nil, errors.New("profile")
 	}
 	c.Prof = fr.Profile{DigHdr: pb[0] == '1', Range: pb[1] == '1', CLen: pb[2] == '1', Mount: pb[3] == '1', Referrers: pb[4] == '1'}
-	c.Plain = next() == "1"
+	if pl := next(); len(pl) > 0 {
+		c.Plain = pl[0] == '1'
+		c.O = parseOpts(pl[1:])
+	}
 	c.Rst = nexti()
 	for n := nexti(); n > 0; n-- {
 		c.MTs = append(c.MTs, common.UnHex(next()))
@@ -273,7 +302,9 @@ func errClass(err error) string {
 func od(d fr.Desc) ocispec.Descriptor {
 	return ocispec.Descriptor{MediaType: d.MT, Digest: digest.Digest(d.DG), Size: d.SZ}
 }
-func fd(d ocispec.Descriptor) fr.Desc { return fr.Desc{MT: d.MediaType, DG: string(d.Digest), SZ: d.Size} }
+func fd(d ocispec.Descriptor) fr.Desc {
+	return fr.Desc{MT: d.MediaType, DG: string(d.Digest), SZ: d.Size}
+}
 
 type opResult struct {
 	Str   string
@@ -286,10 +317,16 @@ type opResult struct {
 
 func newRepo(c *Case, g *fr.Registry) *remote.Repository {
 	repo := &remote.Repository{
-		Client:             g,
-		Reference:          registry.Reference{Registry: "registry.example", Repository: c.Main},
-		PlainHTTP:          c.Plain,
-		ManifestMediaTypes: c.MTs,
+		Client:               g,
+		Reference:            registry.Reference{Registry: "registry.example", Repository: c.Main},
+		PlainHTTP:            c.Plain,
+		ManifestMediaTypes:   c.MTs,
+		SkipReferrersGC:      c.O.SkipGC,
+		ReferrerListPageSize: c.O.RefPage,
+		TagListPageSize:      c.O.TagPage,
+	}
+	if c.O.MaxMeta {
+		repo.MaxMetadataBytes = 1 << 20
 	}
 	switch c.Rst {
 	case 1:
@@ -323,6 +360,48 @@ func newRegistry(c *Case) *fr.Registry {
 	return g
 }
 
+// opaqueReader is a caller-side content reader without a known length: short reads and,
+// for odd chunk sizes, the last bytes together with io.EOF.
+type opaqueReader struct {
+	b     []byte
+	chunk int
+}
+
+func (r *opaqueReader) Read(p []byte) (int, error) {
+	if len(r.b) == 0 {
+		return 0, io.EOF
+	}
+	n := len(p)
+	if n > r.chunk {
+		n = r.chunk
+	}
+	n = copy(p[:n], r.b)
+	r.b = r.b[n:]
+	if len(r.b) == 0 && r.chunk%2 == 1 && n > 0 {
+		return n, io.EOF
+	}
+	return n, nil
+}
+
+// contentReader: how the caller hands the content to Push.  When the descriptor's size is the
+// content's length the kind of reader must not matter (the model assumes a *bytes.Reader), so
+// it rotates deterministically: *bytes.Reader, io.NopCloser around one, an opaque reader.
+func contentReader(content []byte, d fr.Desc, salt int) io.Reader {
+	if int64(len(content)) != d.SZ {
+		return bytes.NewReader(content)
+	}
+	switch (salt + len(content)) % 3 {
+	case 1:
+		run.Count("reader:nopcloser")
+		return io.NopCloser(bytes.NewReader(content))
+	case 2:
+		run.Count("reader:opaque")
+		return &opaqueReader{b: append([]byte(nil), content...), chunk: 1 + (salt+len(content))%5}
+	}
+	run.Count("reader:bytes")
+	return bytes.NewReader(content)
+}
+
 func doOp(ctx context.Context, c *Case, repo *remote.Repository, o Op) (res opResult) {
 	fail := func(err error) opResult { return opResult{Str: errClass(err), Err: err} }
 	var content []byte
@@ -331,12 +410,12 @@ func doOp(ctx context.Context, c *Case, repo *remote.Repository, o Op) (res opRe
 	}
 	switch o.Kind {
 	case "push":
-		if err := repo.Push(ctx, od(o.D), bytes.NewReader(content)); err != nil {
+		if err := repo.Push(ctx, od(o.D), contentReader(content, o.D, len(o.D.MT))); err != nil {
 			return fail(err)
 		}
 		return opResult{Str: "ok"}
 	case "pushref":
-		if err := repo.PushReference(ctx, od(o.D), bytes.NewReader(content), o.S); err != nil {
+		if err := repo.PushReference(ctx, od(o.D), contentReader(content, o.D, len(o.S)), o.S); err != nil {
 			return fail(err)
 		}
 		return opResult{Str: "ok"}
@@ -730,6 +809,16 @@ func execHistory(id string, c *Case) (nreq int) {
 	line := c.Line()
 	g := newRegistry(c)
 	repo := newRepo(c, g)
+	var gotWarnings []string
+	if c.O.Warn {
+		g.WarnEvery = 2
+		repo.HandleWarning = func(w remote.Warning) {
+			if w.Code != 299 || w.Agent != "-" {
+				run.OracleFail(id, "warning-pass-through", fmt.Sprintf("handler called with code %d agent %q", w.Code, w.Agent), replayOf(line))
+			}
+			gotWarnings = append(gotWarnings, w.Text)
+		}
+	}
 	ctx := context.Background()
 	t := &truth{blobs: map[string][]byte{}, mans: map[string]man{}, tags: map[string]string{}, other: map[string][]byte{}}
 	for _, i := range c.OtherIdx {
@@ -741,7 +830,15 @@ func execHistory(id string, c *Case) (nreq int) {
 	for i, o := range c.Ops {
 		g.CurOp = i
 		first := len(g.Log)
+		sentBefore, gotBefore := len(g.SentWarnings), len(gotWarnings)
 		res := doOp(ctx, c, repo, o)
+		if c.O.Warn {
+			sent, got := g.SentWarnings[sentBefore:], gotWarnings[gotBefore:]
+			if strings.Join(sent, "\x00") != strings.Join(got, "\x00") {
+				run.OracleFail(id, "warning-pass-through", fmt.Sprintf("op %d (%s): registry sent warnings %q, HandleWarning received %q", i, o.Kind, sent, got), replayOf(line))
+			}
+			run.Dist["warnings:delivered"] += len(got)
+		}
 		var tr []string
 		var hit *fr.Exchange
 		for k := first; k < len(g.Log); k++ {
@@ -778,7 +875,7 @@ func execHistory(id string, c *Case) (nreq int) {
 			continue
 		}
 		if hit != nil {
-			run.Count("corrupt:" + c.Cor.Field + ":" + hit.Q.M + ":" + hit.Q.EP.Kind)
+			run.Count("corrupt:" + c.Cor.Field + ":" + o.Kind + ":" + hit.Q.M + ":" + hit.Q.EP.Kind)
 			if mustFail(c, o, *hit) && res.Err == nil {
 				run.OracleFail(id, "corruption-accepted", fmt.Sprintf("op %d (%s): response to %s corrupted in %s, call returned %s", i, o.Kind,
 					fr.ShowReq(hit.Q), c.Cor.Field, res.Str), replayOf(line))
@@ -823,18 +920,23 @@ func execHistory(id string, c *Case) (nreq int) {
 // ---------- Read/Seek scripts ----------
 
 type SeekOp struct {
-	K   string // r s c
-	N   int64
-	W   int
+	K string // r s c
+	N int64
+	W int
 }
 
 type SeekCase struct {
 	Content []byte
+	Modes   []fr.BodyMode // behaviour of the i-th blob body (cycled)
 	Ops     []SeekOp
 }
 
 func (s *SeekCase) Line() string {
-	w := []string{"S", common.Hex(string(s.Content)), strconv.Itoa(len(s.Ops))}
+	w := []string{"S", common.Hex(string(s.Content)), strconv.Itoa(len(s.Modes))}
+	for _, m := range s.Modes {
+		w = append(w, strconv.Itoa(m.Chunk), bit(m.EOFWithData))
+	}
+	w = append(w, strconv.Itoa(len(s.Ops)))
 	for _, o := range s.Ops {
 		switch o.K {
 		case "r":
@@ -850,22 +952,41 @@ func (s *SeekCase) Line() string {
 
 func ParseSeek(line string) (*SeekCase, error) {
 	t := strings.Fields(line)
-	if len(t) < 3 || t[0] != "S" {
+	if len(t) < 4 || t[0] != "S" {
 		return nil, errors.New("not a seek case")
 	}
 	s := &SeekCase{Content: []byte(common.UnHex(t[1]))}
-	n, _ := strconv.Atoi(t[2])
+	nm, _ := strconv.Atoi(t[2])
 	i := 3
+	for ; nm > 0; nm-- {
+		if i+1 >= len(t) {
+			return nil, errors.New("short")
+		}
+		c, _ := strconv.Atoi(t[i])
+		s.Modes = append(s.Modes, fr.BodyMode{Chunk: c, EOFWithData: t[i+1] == "1"})
+		i += 2
+	}
+	if i >= len(t) {
+		return nil, errors.New("short")
+	}
+	n, _ := strconv.Atoi(t[i])
+	i++
 	for ; n > 0; n-- {
 		if i >= len(t) {
 			return nil, errors.New("short")
 		}
 		switch t[i] {
 		case "r":
+			if i+1 >= len(t) {
+				return nil, errors.New("short")
+			}
 			v, _ := strconv.ParseInt(t[i+1], 10, 64)
 			s.Ops = append(s.Ops, SeekOp{K: "r", N: v})
 			i += 2
 		case "s":
+			if i+2 >= len(t) {
+				return nil, errors.New("short")
+			}
 			v, _ := strconv.ParseInt(t[i+1], 10, 64)
 			w, _ := strconv.Atoi(t[i+2])
 			s.Ops = append(s.Ops, SeekOp{K: "s", N: v, W: w})
@@ -878,6 +999,9 @@ func ParseSeek(line string) (*SeekCase, error) {
 	return s, nil
 }
 
+// execSeek runs a Read/Seek script on the reader Fetch returns from a range-capable registry.
+// Every "r n" is ONE Read call with a buffer of n bytes.  The oracle is independent of how the
+// bodies chunk their bytes: it tracks the position an io.ReadSeeker over the content must have.
 func execSeek(id string, s *SeekCase) {
 	line := s.Line()
 	c := &Case{Main: "app/blobs", Other: "lib/src", Prof: fr.Profile{DigHdr: true, Range: true, CLen: true}}
@@ -888,7 +1012,21 @@ func execSeek(id string, s *SeekCase) {
 	if err := repo.Push(ctx, od(d), bytes.NewReader(s.Content)); err != nil {
 		panic(err)
 	}
-	rc, err := repo.Fetch(ctx, od(d))
+	g.BlobModes = s.Modes
+	if len(g.BlobModes) == 0 {
+		g.BlobModes = []fr.BodyMode{{}}
+	}
+	// the reader comes from Fetch or (odd content length) from blob FetchReference: both wrap
+	// the body in the same readSeekCloser with the blob's size
+	var rc io.ReadCloser
+	var err error
+	if len(s.Content)%2 == 1 {
+		_, rc, err = repo.Blobs().(registry.ReferenceFetcher).FetchReference(ctx, d.DG)
+		run.Count("seek:via-fetchreference")
+	} else {
+		rc, err = repo.Fetch(ctx, od(d))
+		run.Count("seek:via-fetch")
+	}
 	if err != nil {
 		panic(err)
 	}
@@ -898,44 +1036,85 @@ func execSeek(id string, s *SeekCase) {
 		run.Case(id, line, "noseeker")
 		return
 	}
-	ref := bytes.NewReader(s.Content)
+	size := int64(len(s.Content))
+	pos := int64(0) // where an io.ReadSeeker over the content is
 	var parts []string
 	closed := false
 	for i, o := range s.Ops {
 		first := len(g.Log)
-		var out, want string
+		var out string
+		mayReconnect := false // only a Seek that moves the position inside the blob may
+		fail := func(sig, msg string) {
+			run.OracleFail(id, sig, fmt.Sprintf("step %d (%v): %s", i, o, msg), replayOf(line))
+		}
 		switch o.K {
 		case "r":
 			buf := make([]byte, o.N)
-			n, err := io.ReadFull(rs, buf)
-			if n == 0 && err != nil && err != io.EOF && err != io.ErrUnexpectedEOF {
+			n, err := rs.Read(buf)
+			switch {
+			case err != nil && err != io.EOF:
 				out = "err"
-			} else {
-				out = "bytes:" + common.Hex(string(buf[:n]))
-			}
-			buf2 := make([]byte, o.N)
-			n2, _ := io.ReadFull(ref, buf2)
-			want = "bytes:" + common.Hex(string(buf2[:n2]))
-			if closed {
-				want = "err"
+				if !closed {
+					fail("seek", "Read failed: "+err.Error())
+				}
+			default:
+				got := buf[:n]
+				out = "data:" + common.Hex(string(got)) + ":more"
+				if err == io.EOF {
+					out = "data:" + common.Hex(string(got)) + ":eof"
+					run.Count("seek:read-eof-" + map[bool]string{true: "with-data", false: "alone"}[n > 0])
+				}
+				if closed {
+					fail("seek", "Read on a closed reader returned "+out)
+					break
+				}
+				end := pos + int64(n)
+				if pos > size {
+					end = pos
+				}
+				if (pos <= size && (end > size || !bytes.Equal(got, s.Content[pos:end]))) || (pos > size && n > 0) {
+					fail("seek", fmt.Sprintf("Read at position %d returned %x, the content there is %x", pos, got, s.Content[min64(pos, size):min64(pos+int64(n), size)]))
+				}
+				if err == io.EOF && pos+int64(n) < size {
+					fail("seek", fmt.Sprintf("EOF at position %d of %d", pos+int64(n), size))
+				}
+				if n == 0 && err == nil && o.N > 0 && pos < size {
+					fail("seek", "Read returned no bytes and no error before the end")
+				}
+				pos += int64(n)
 			}
 		case "s":
 			p, err := rs.Seek(o.N, o.W)
+			want := o.N
+			switch o.W {
+			case io.SeekCurrent:
+				want += pos
+			case io.SeekEnd:
+				want += size
+			}
 			if err != nil {
 				out = "err"
+				if want >= 0 && !closed {
+					fail("seek", fmt.Sprintf("Seek to %d failed: %v", want, err))
+				}
 			} else {
 				out = "pos:" + strconv.FormatInt(p, 10)
-			}
-			p2, err2 := ref.Seek(o.N, o.W)
-			if err2 != nil || closed {
-				want = "err"
-			} else {
-				want = "pos:" + strconv.FormatInt(p2, 10)
+				if closed || want < 0 {
+					fail("seek", "Seek succeeded: "+out)
+				} else if p != want {
+					fail("seek", fmt.Sprintf("Seek returned %d, an io.Seeker at position %d returns %d", p, pos, want))
+				} else {
+					if want == pos {
+						run.Count("seek:position-unchanged")
+					}
+					mayReconnect = want != pos && want < size
+					pos = want
+				}
 			}
 		default:
 			rc.Close()
 			closed = true
-			out, want = "closed", "closed"
+			out = "closed"
 		}
 		var rq []string
 		for k := first; k < len(g.Log); k++ {
@@ -943,17 +1122,18 @@ func execSeek(id string, s *SeekCase) {
 			if ex.Bad != "" {
 				run.OracleFail(id, "request-not-allowed", ex.Bad, replayOf(line))
 			}
+			if !mayReconnect {
+				run.OracleFail(id, "seek-range", fmt.Sprintf("step %d (%v): a request (%s) although the position does not move inside the blob", i, o, fr.ShowReq(ex.Q)), replayOf(line))
+			}
 			if ex.Q.Range != nil {
 				rq = append(rq, fmt.Sprintf("%d-%d", ex.Q.Range[0], ex.Q.Range[1]))
 				if ex.Q.Range[1] != d.SZ-1 || ex.Q.Range[0] >= d.SZ {
 					run.OracleFail(id, "seek-range", fmt.Sprintf("step %d: Range %d-%d on a blob of %d bytes", i, ex.Q.Range[0], ex.Q.Range[1], d.SZ), replayOf(line))
 				}
+				run.Count("seek:reconnect")
 			} else {
 				rq = append(rq, "norange")
 			}
-		}
-		if out != want {
-			run.OracleFail(id, "seek", fmt.Sprintf("step %d (%v): got %s, bytes.Reader gives %s", i, o, out, want), replayOf(line))
 		}
 		r := "-"
 		if len(rq) > 0 {
@@ -966,16 +1146,23 @@ func execSeek(id string, s *SeekCase) {
 	run.Case(id, line, strings.Join(parts, " | "))
 }
 
+func min64(a, b int64) int64 {
+	if a < b {
+		return a
+	}
+	return b
+}
+
 // ---------- request grammar: formal `allowed` vs the endpoint table ----------
 
 type GramCase struct {
 	M, Repo, EK, Arg string
-	ID              int64
-	Digest, MD, MF  *string
-	CType           *string
-	CLen            int64 // -1 = absent
-	Range           *[2]int64
-	Body            string
+	ID               int64
+	Digest, MD, MF   *string
+	CType            *string
+	CLen             int64 // -1 = absent
+	Range            *[2]int64
+	Body             string
 }
 
 func optTok(p *string) string {
@@ -1172,6 +1359,136 @@ func genGram(r *common.Rand) *GramCase {
 	return g
 }
 
+// ---------- where step 2 of an upload goes (Model/Location.v) ----------
+
+type LocCase struct{ Scheme, Host, Port, Loc, Digest string }
+
+func (l *LocCase) Line() string {
+	return strings.Join([]string{"U", common.Hex(l.Scheme), common.Hex(l.Host), common.Hex(l.Port), common.Hex(l.Loc), common.Hex(l.Digest)}, " ")
+}
+
+func ParseLoc(line string) (*LocCase, error) {
+	t := strings.Fields(line)
+	if len(t) != 6 || t[0] != "U" {
+		return nil, errors.New("not a location case")
+	}
+	return &LocCase{common.UnHex(t[1]), common.UnHex(t[2]), common.UnHex(t[3]), common.UnHex(t[4]), common.UnHex(t[5])}, nil
+}
+
+// locFake answers the POST with a fixed Location and records where the PUT goes.
+type locFake struct {
+	loc  string
+	post *url.URL
+	put  *url.URL
+	auth string
+}
+
+func (f *locFake) Do(req *http.Request) (*http.Response, error) {
+	if req.Body != nil {
+		io.Copy(io.Discard, req.Body)
+		req.Body.Close()
+	}
+	resp := &http.Response{Header: http.Header{}, Request: req, Body: io.NopCloser(strings.NewReader("")), ProtoMajor: 1, ProtoMinor: 1}
+	switch req.Method {
+	case "POST":
+		f.post = req.URL
+		resp.StatusCode = 202
+		resp.Header.Set("Location", f.loc)
+	case "PUT":
+		u := *req.URL
+		f.put = &u
+		resp.StatusCode = 201
+	default:
+		resp.StatusCode = 405
+	}
+	return resp, nil
+}
+
+func execLoc(id string, l *LocCase) {
+	line := l.Line()
+	reg := l.Host
+	if l.Port != "" {
+		reg += ":" + l.Port
+	}
+	f := &locFake{loc: l.Loc}
+	repo := &remote.Repository{Client: f, Reference: registry.Reference{Registry: reg, Repository: "app/blobs"}, PlainHTTP: l.Scheme == "http"}
+	content := []byte("location")
+	d := ocispec.Descriptor{MediaType: mtOctet, Digest: digest.Digest(l.Digest), Size: int64(len(content))}
+	err := repo.Push(context.Background(), d, bytes.NewReader(content))
+	obs := "noput"
+	if f.put != nil {
+		obs = "url:" + common.Hex(f.put.String())
+	}
+	if err != nil && f.put == nil {
+		obs = "err"
+	}
+	run.Count("location:" + strings.SplitN(obs, ":", 2)[0])
+	// independent expectation, with net/url: the Location is used as given (authority, path,
+	// other query parameters), plus digest=<digest>; a relative one goes to the POST's authority;
+	// documented exception: the port 443 is restored on the POST's own host
+	if f.put != nil && f.post != nil {
+		if lu, perr := f.post.Parse(l.Loc); perr == nil {
+			bad := ""
+			wantHost := lu.Host
+			if f.post.Port() == "443" && lu.Hostname() == f.post.Hostname() && lu.Port() == "" {
+				wantHost = lu.Hostname() + ":443"
+			}
+			if f.put.Host != wantHost {
+				bad = "authority " + f.put.Host + " instead of " + wantHost
+			}
+			if f.put.Scheme != lu.Scheme {
+				bad = "scheme " + f.put.Scheme
+			}
+			if f.put.EscapedPath() != lu.EscapedPath() {
+				bad = "path " + f.put.EscapedPath() + " instead of " + lu.EscapedPath()
+			}
+			pq, lq := f.put.Query(), lu.Query()
+			if v := pq["digest"]; len(v) != 1 || v[0] != l.Digest {
+				bad = "digest parameter " + strings.Join(v, ",")
+			}
+			for k, v := range lq {
+				if k != "digest" && strings.Join(pq[k], "\x00") != strings.Join(v, "\x00") {
+					bad = "parameter " + k + " of the Location not kept"
+				}
+			}
+			for k := range pq {
+				if _, ok := lq[k]; !ok && k != "digest" {
+					bad = "parameter " + k + " invented"
+				}
+			}
+			if bad != "" {
+				run.OracleFail(id, "upload-location", fmt.Sprintf("POST %s answered Location %q, PUT went to %s: %s", f.post, l.Loc, f.put, bad), replayOf(line))
+			}
+		}
+	}
+	run.Nontrivial(line)
+	run.Case(id, line, obs)
+}
+
+func genLoc(r *common.Rand) *LocCase {
+	l := &LocCase{Scheme: common.Pick(r, []string{"https", "https", "http"}), Host: common.Pick(r, []string{"registry.example", "reg.io", "localhost", "R-1.example"}),
+		Port: common.Pick(r, []string{"", "443", "443", "5000", "80", "8443"}), Digest: sha([]byte{byte(r.Intn(3))})}
+	path := common.Pick(r, []string{"/v2/app/blobs/uploads/7", "/v2/app/blobs/uploads/a1b2-c3", "/upload/x_y~z", "/"})
+	query := common.Pick(r, []string{"", "", "?_state=abc123", "?z=1&a=2", "?digest=old&k=v", "?mount=x"})
+	host := l.Host
+	if r.Chance(1, 4) {
+		host = common.Pick(r, []string{"blobs.example", "cdn.reg.io", "registry.example"})
+	}
+	switch r.Intn(8) {
+	case 0, 1, 2:
+		l.Loc = path + query // absolute path
+	case 3, 4:
+		l.Loc = common.Pick(r, []string{"https", "http", l.Scheme}) + "://" + host + path + query // no port
+	case 5:
+		l.Loc = l.Scheme + "://" + host + ":" + common.Pick(r, []string{"443", "5000", l.Port + "0"}) + path + query
+	case 6:
+		l.Loc = l.Scheme + "://" + l.Host + path + query // the issue-177 shape when Port is 443
+	default: // forms the model does not judge (net/url territory)
+		l.Loc = common.Pick(r, []string{"uploads/7", "//other.example/v2/x", "https://user@reg.io/v2/x", "/v2/a%20b/uploads/1", "/v2/x?a=b%26c", "https://[::1]:443/v2/x", ""})
+	}
+	return l
+}
+
 // ---------- generators ----------
 
 func jsonManifest(r *common.Rand, i int, subj *fr.Desc) []byte {
@@ -1190,6 +1507,13 @@ func genCase(r *common.Rand, nops int) *Case {
 	c := &Case{Main: common.Pick(r, []string{"app/web", "hello-world", "a/b/c"}), Other: common.Pick(r, []string{"lib/base", "src"})}
 	c.Prof = fr.Profile{DigHdr: r.Chance(2, 3), Range: r.Bool(), CLen: r.Chance(3, 4), Mount: r.Bool(), Referrers: r.Bool()}
 	c.Plain = r.Bool()
+	c.O = Opts{SkipGC: r.Bool(), Warn: r.Chance(1, 3), MaxMeta: r.Chance(1, 4)}
+	if r.Chance(1, 3) {
+		c.O.RefPage = 1 + r.Intn(5)
+	}
+	if r.Chance(1, 4) {
+		c.O.TagPage = 1 + r.Intn(5)
+	}
 	switch {
 	case r.Chance(1, 6):
 		c.Rst = 1
@@ -1389,24 +1713,181 @@ func genCase(r *common.Rand, nops int) *Case {
 	return c
 }
 
+// ---------- exhaustive single-field corruption: every (operation, exchange, field) ----------
+
+type corVariant struct{ Field, Arg string }
+
+func corVariants(c *Case) []corVariant {
+	return []corVariant{{"dig-other", sha([]byte("other0"))}, {"dig-other", c.Pool[len(c.Pool)-1].Digest}, {"dig-garbage", ""}, {"dig-drop", ""},
+		{"len-inc", ""}, {"len-drop", ""}, {"type-other", ""}, {"type-garbage", ""}, {"type-drop", ""}, {"status", "500"}, {"status", "204"}, {"loc-drop", ""}}
+}
+
+// canonicalCase: one history that exercises every operation and every request shape.
+func canonicalCase(prof fr.Profile, rst int, plain bool) *Case {
+	c := &Case{Main: "app/web", Other: "lib/base", Prof: prof, Rst: rst, Plain: plain}
+	add := func(b []byte, subj *fr.Desc) int {
+		sj := "-"
+		if subj != nil {
+			sj = fmt.Sprintf("%s/%s/%d", common.Hex(subj.MT), common.Hex(subj.DG), subj.SZ)
+		}
+		if !json.Valid(b) {
+			sj = "N"
+		}
+		c.Pool = append(c.Pool, PoolItem{Bytes: b, Digest: sha(b), Subj: sj, subj: subj})
+		return len(c.Pool) - 1
+	}
+	desc := func(i int, mt string) fr.Desc {
+		return fr.Desc{MT: mt, DG: c.Pool[i].Digest, SZ: int64(len(c.Pool[i].Bytes))}
+	}
+	m0 := add([]byte(`{"schemaVersion":2,"n":0}`), nil)
+	m0d := desc(m0, mtOCIManifest)
+	withSubject := prof.Referrers && rst != 2
+	var m1 int
+	if withSubject {
+		b, _ := json.Marshal(map[string]any{"schemaVersion": 2, "subject": map[string]any{"mediaType": m0d.MT, "digest": m0d.DG, "size": m0d.SZ}})
+		m1 = add(b, &m0d)
+	}
+	m2 := add([]byte(`{"schemaVersion":2,"n":2}`), nil)
+	b0 := add([]byte{0x80, 1, 2, 3}, nil)
+	b1 := add([]byte{0x81, 9, 8}, nil)
+	b2 := add([]byte{0x82}, nil)
+	c.OtherIdx = []int{b1, b2}
+	op := func(k string, d fr.Desc, ci int, s string) { c.Ops = append(c.Ops, Op{Kind: k, D: d, CI: ci, S: s}) }
+	op("push", desc(b0, mtLayer), b0, "")
+	op("push", m0d, m0, "")
+	op("pushref", desc(m2, mtDockerManifest), m2, "v1")
+	op("fetch", desc(b0, mtLayer), -1, "")
+	op("fetch", m0d, -1, "")
+	op("exists", desc(b0, mtLayer), -1, "")
+	op("exists", m0d, -1, "")
+	op("resolve", fr.Desc{}, -1, "v1")
+	op("resolve", fr.Desc{}, -1, m0d.DG)
+	op("fetchref", fr.Desc{}, -1, "v1")
+	op("fetchref", fr.Desc{}, -1, m0d.DG)
+	op("bresolve", fr.Desc{}, -1, c.Pool[b0].Digest)
+	op("bfetchref", fr.Desc{}, -1, c.Pool[b0].Digest)
+	op("tag", m0d, -1, "v2")
+	op("mount", desc(b1, mtLayer), -1, "")
+	op("mount", desc(b2, mtLayer), b2, "")
+	if withSubject {
+		op("push", desc(m1, mtOCIManifest), m1, "")
+		op("preds", m0d, -1, "")
+		op("delete", desc(m1, mtOCIManifest), -1, "")
+	}
+	op("delete", m0d, -1, "")
+	op("delete", desc(m2, mtDockerManifest), -1, "")
+	op("delete", desc(b0, mtLayer), -1, "")
+	return c
+}
+
+func allProfiles() []fr.Profile {
+	var ps []fr.Profile
+	for i := 0; i < 32; i++ {
+		ps = append(ps, fr.Profile{DigHdr: i&1 != 0, Range: i&2 != 0, CLen: i&4 != 0, Mount: i&8 != 0, Referrers: i&16 != 0})
+	}
+	return ps
+}
+
+// enumerateCorruptions runs the canonical history once per profile and then once for every
+// exchange x every corruption variant: no sampling.
+func enumerateCorruptions() {
+	profiles := allProfiles()
+	if !run.Thorough() {
+		profiles = []fr.Profile{profiles[31], profiles[0], profiles[21], profiles[10], profiles[20]}
+	}
+	runs, hist := 0, 0
+	before := map[string]int{}
+	for k, v := range run.Dist {
+		before[k] = v
+	}
+	for _, p := range profiles {
+		for _, rst := range []int{0, 1} {
+			if rst == 1 && !run.Thorough() {
+				continue
+			}
+			c := canonicalCase(p, rst, hist%2 == 0)
+			n := execHistory(run.NewID(), c)
+			hist++
+			for k := 0; k < n; k++ {
+				for _, v := range corVariants(c) {
+					cc := *c
+					cc.Cor = &fr.Corruption{K: k, Field: v.Field, Arg: v.Arg}
+					execHistory(run.NewID(), &cc)
+					runs++
+				}
+			}
+		}
+	}
+	pairs := 0
+	for k, v := range run.Dist {
+		if strings.HasPrefix(k, "corrupt:") && v > before[k] {
+			pairs++
+		}
+	}
+	run.Extra["corruption_enumeration"] = map[string]any{"exhaustive": true, "profiles": len(profiles), "histories": hist, "corrupted_runs": runs,
+		"variants_per_exchange": 12, "distinct_field_op_method_endpoint": pairs,
+		"what": "canonical history with every operation and request shape; every exchange of it x every single-field corruption variant, per capability profile (thorough: all 32 profiles x referrers state unknown/supported)"}
+}
+
 var corruptFields = []string{"dig-other", "dig-garbage", "dig-drop", "len-inc", "len-drop", "type-other", "type-garbage",
 	"type-drop", "status", "status", "loc-drop"}
 
 func genSeek(r *common.Rand) *SeekCase {
 	n := r.Intn(40)
 	if r.Chance(1, 10) {
-		n = 1
+		n = 0
 	}
 	s := &SeekCase{Content: make([]byte, n+1)}
 	for i := range s.Content {
 		s.Content[i] = byte(r.Intn(256))
 	}
 	size := int64(len(s.Content))
-	for k := 2 + r.Intn(10); k > 0; k-- {
-		switch x := r.Intn(10); {
-		case x < 4:
-			s.Ops = append(s.Ops, SeekOp{K: "r", N: int64(1 + r.Intn(int(size)+3))})
-		case x < 9:
+	// body behaviours: separate EOF, data with EOF, short reads, both; one per body, cycled
+	for k := 1 + r.Intn(3); k > 0; k-- {
+		m := fr.BodyMode{EOFWithData: r.Bool()}
+		if r.Bool() {
+			m.Chunk = 1 + r.Intn(7)
+		}
+		s.Modes = append(s.Modes, m)
+	}
+	read := func(n int64) { s.Ops = append(s.Ops, SeekOp{K: "r", N: n}) }
+	seek := func(off int64, w int) { s.Ops = append(s.Ops, SeekOp{K: "s", N: off, W: w}) }
+	readToEnd := func() {
+		// enough Read calls to pass the end whatever the chunking; the last ones see EOF
+		for k := 0; k < int(size)+2; k++ {
+			read(int64(1 + r.Intn(int(size)+3)))
+			if r.Chance(1, 4) {
+				break
+			}
+		}
+	}
+	for k := 2 + r.Intn(6); k > 0; k-- {
+		switch x := r.Intn(16); {
+		case x < 3:
+			read(int64(1 + r.Intn(int(size)+3)))
+		case x < 5: // read to the very end, then look where we are and go back
+			read(size + int64(r.Intn(3)))
+			readToEnd()
+			switch r.Intn(5) {
+			case 0:
+				seek(0, 1)
+			case 1:
+				seek(-int64(1+r.Intn(int(size))), 1)
+			case 2:
+				seek(-int64(r.Intn(int(size)+1)), 2)
+			case 3:
+				seek(int64(r.Intn(int(size)+1)), 0)
+			default:
+				seek(size, 0) // the position we are at: no reconnect
+			}
+			read(int64(1 + r.Intn(int(size)+2)))
+		case x < 7: // stay where we are (no reconnect), by all three whence values
+			seek(0, 1)
+			if r.Bool() {
+				read(int64(1 + r.Intn(4)))
+				seek(0, 1)
+			}
+		case x < 12:
 			w := r.Intn(3)
 			var off int64
 			switch w {
@@ -1415,14 +1896,25 @@ func genSeek(r *common.Rand) *SeekCase {
 			case 1:
 				off = int64(r.Intn(int(size)+2)) - size/2
 			default:
-				off = -int64(r.Intn(int(size) + 3)) + 1
+				off = -int64(r.Intn(int(size)+3)) + 1
 			}
-			s.Ops = append(s.Ops, SeekOp{K: "s", N: off, W: w})
+			seek(off, w)
+		case x < 14: // seek, read a little, seek back to an earlier offset, read again
+			a := int64(r.Intn(int(size) + 1))
+			seek(a, 0)
+			read(int64(1 + r.Intn(5)))
+			seek(a, 0)
+			read(int64(1 + r.Intn(int(size)+2)))
 		default:
 			if r.Chance(1, 3) {
 				s.Ops = append(s.Ops, SeekOp{K: "c"})
+			} else {
+				readToEnd()
 			}
 		}
+	}
+	if len(s.Ops) > 60 {
+		s.Ops = s.Ops[:60]
 	}
 	return s
 }
@@ -1441,6 +1933,12 @@ func main() {
 			if strings.HasPrefix(line, "S ") {
 				if s, err := ParseSeek(line); err == nil {
 					execSeek(id, s)
+				}
+				continue
+			}
+			if strings.HasPrefix(line, "U ") {
+				if l, err := ParseLoc(line); err == nil {
+					execLoc(id, l)
 				}
 				continue
 			}
@@ -1484,6 +1982,11 @@ func main() {
 	ns := run.Scale(2500, 100000)
 	for i := 0; i < ns; i++ {
 		execSeek(run.NewID(), genSeek(r.Fork()))
+	}
+	enumerateCorruptions()
+	nl := run.Scale(1500, 40000)
+	for i := 0; i < nl; i++ {
+		execLoc(run.NewID(), genLoc(r.Fork()))
 	}
 	ng := run.Scale(4000, 200000)
 	for i := 0; i < ng; i++ {
